@@ -11,7 +11,7 @@ import (
 // context ends; no deadlock, no panic, no leaked library goroutine.
 
 func init() {
-	register(&Property{ID: "C05", Timers: false, Scenarios: c05Scenarios, Oracle: c05Oracle})
+	register(&Property{ID: "C05", Timers: true, Scenarios: c05Scenarios, Oracle: c05Oracle})
 }
 
 type cliShape struct {
@@ -99,6 +99,12 @@ func c05Scenarios(tier string) []*Scenario {
 			if tr == "http" {
 				add(tr, "", true, RPC{Kind: "bd", Client: []string{"S0", "S1", "S2", "C", "R*"}, Handler: h}, "")
 			}
+		}
+		// CloseSend from two goroutines at once, also while a SendMsg is held back
+		add(tr, "", false, RPC{Kind: "bd", Client: []string{"S0", "C", "R*"}, Client2: []string{"C"}, Handler: []string{"r*", "s0", "ret:ok"}}, "misuse")
+		if tr == "inproc" {
+			add(tr, "", false, RPC{Kind: "bd", Client: []string{"S0", "S1", "S2", "C", "R*"}, Client2: []string{"C", "C"}, Handler: []string{"w", "ret:ctx"}}, "misuse")
+			add(tr, "cancel", false, RPC{Kind: "bd", Client: []string{"S0", "S1", "S2", "C", "R*"}, Client2: []string{"C", "C"}, Handler: []string{"w", "ret:ctx"}}, "misuse")
 		}
 		// a goroutine the handler left behind keeps using the stream after the handler returned:
 		// every such operation returns (an error), none blocks or panics
